@@ -131,6 +131,23 @@ func nativeReplay(repoDir, harnessDir string, cases []replayCase, dropFiles map[
 	cb, _ := json.Marshal(cases)
 	os.WriteFile(inPath, cb, 0o644)
 
+	// C15: build the C driver from the current /repo/c sources
+	cdriver := ""
+	for _, c := range cases {
+		if strings.Contains(c.Harness, "_C15_") {
+			cdir := filepath.Join(repoDir, "c")
+			cdriver = filepath.Join(tmp, "cdriver")
+			args := []string{"-O1", "-w", "-I" + cdir, "-I" + filepath.Join(cdir, "include"), filepath.Join(harnessDir, "cdriver.c")}
+			for _, f := range []string{"record.c", "basics.c", "strbuf.c", "publicbasics.c", "git-compat-util.c"} {
+				args = append(args, filepath.Join(cdir, f))
+			}
+			args = append(args, "-o", cdriver)
+			if b, err := exec.Command("clang", args...).CombinedOutput(); err != nil {
+				return nil, string(b), fmt.Errorf("cannot build the C replay driver: %v\n%s", err, tail(string(b), 20))
+			}
+			break
+		}
+	}
 	results := make([]replayResult, len(cases))
 	have := make([]bool, len(cases))
 	start := 0
@@ -148,7 +165,7 @@ func nativeReplay(repoDir, harnessDir string, cases []replayCase, dropFiles map[
 		cmd := exec.Command("bash", "-c", limit+"exec go test "+race+"-tags verif -vet=off -count=1 -timeout 20m -overlay "+ovPath+" -run '^TestVerifReplay$' .")
 		cmd.Dir = repoDir
 		cmd.Env = append(os.Environ(), "GOFLAGS=-mod=mod", "GOPROXY=off", "GOSUMDB=off", "GOTOOLCHAIN=local",
-			"GORACE=halt_on_error=1 exitcode=66", "VERIF_REPLAY_IN="+inPath, "VERIF_REPLAY_OUT="+outPath, fmt.Sprintf("VERIF_REPLAY_START=%d", start))
+			"GORACE=halt_on_error=1 exitcode=66", "VERIF_CDRIVER="+cdriver, "VERIF_REPLAY_IN="+inPath, "VERIF_REPLAY_OUT="+outPath, fmt.Sprintf("VERIF_REPLAY_START=%d", start))
 		var outb bytes.Buffer
 		cmd.Stdout, cmd.Stderr = &outb, &outb
 		t0 := time.Now()
